@@ -1,5 +1,5 @@
 /-
-  C20 helper lemmas: `InvT` is preserved by the labels of group 3 (see `Label.grp`), `delay` excepted.
+  C20 helper lemmas: `InvT` is preserved by the labels of group 1 (see `Label.grpD`), `delay` excepted.
 -/
 import Kopf.Lemmas.C20_Defs
 set_option linter.unusedSimpArgs false
@@ -7,8 +7,8 @@ set_option linter.unusedVariables false
 namespace Kopf.C20
 
 set_option maxHeartbeats 16000000 in
-theorem InvT.pres_g3 {cfg : Cfg} {s s' : State} {l : Label} (hB : InvB s) (hC : InvC s) (hD : InvD cfg s)
-    (hE : InvE cfg s) (hI : InvT cfg s) (hl : ∀ n, l ≠ .delay n) (hg : l.grp = 3)
+theorem InvT.pres_d1 {cfg : Cfg} {s s' : State} {l : Label} (hB : InvB s) (hC : InvC s) (hD : InvD cfg s)
+    (hE : InvE cfg s) (hI : InvT cfg s) (hl : ∀ n, l ≠ .delay n) (hg : l.grpD = 1)
     (h : step cfg s l = some s') : InvT cfg s' := by
   have hb2 := hB.subOrch
   have hb3 := hB.wkRoot
@@ -18,6 +18,15 @@ theorem InvT.pres_g3 {cfg : Cfg} {s s' : State} {l : Label} (hB : InvB s) (hC : 
   have hb8 := hB.stoppingNone
   have hb9 := hB.subSome
   have hb10 := hB.orchStopSubs
+  have hb2' : ∀ i f dl, i < s.nSubs → s.st (.sub i) = .stopping f dl →
+      s.st (.root .orchestrator) = .running ∨ (s.st (.root .orchestrator)).isStopping = true := by
+    intro i f dl hi hh
+    have := hb2 i hi (by rw [hh]; rfl)
+    cases ho : s.st (.root .orchestrator) <;> simp_all [TS.active, TS.isStopping]
+  have hb9' : ∀ i f (dl : Option Nat), s.st (.sub i) = .stopping f dl → ∃ d, dl = some d := by
+    intro i f dl hh; cases dl with
+    | none => exact absurd hh (hb9 i f)
+    | some d => exact ⟨d, rfl⟩
   have hc9 := hC.waitingEarly
   have hd1 := hD.dlRoot
   have hd2 := hD.dlSub
@@ -38,10 +47,11 @@ theorem InvT.pres_g3 {cfg : Cfg} {s s' : State} {l : Label} (hB : InvB s) (hC : 
     intro r; cases r <;> simp [Root.kind]
   obtain ⟨h1, h2, h3, h4, h5, h6, h7, h8, h9⟩ := hI
   cases l <;> simp only [step] at h
-  all_goals (first | (exfalso; simp [Label.grp] at hg; done) | skip)
+  all_goals (first | (exfalso; simp [Label.grpD, Label.grp] at hg; done) | skip)
   all_goals (repeat' (split at h))
   all_goals (first | (cases h; done) | skip)
   all_goals (cases h)
+  all_goals (first | (exfalso; simp only [Label.grpD, *] at hg; done) | (exfalso; simp only [Label.grpD, *] at hg; omega) | skip)
   all_goals (try simp only [allRootsEnded_iff, anyRootEnded_iff, othersEnded_iff, hungLive_false_iff,
     noLiveWorkerOf_iff, noLiveSub_iff] at *)
   all_goals (refine ⟨?_, ?_, ?_, ?_, ?_, ?_, ?_, ?_, ?_⟩)
